@@ -514,6 +514,35 @@ theorem C04_history_guard_bound (cfg : Cfg) (hL : cfg.L ≤ 255) (beh : Beh) (w 
       exact nil
     | save c name o hget => exact nil
 
+/-- **C12 over whole histories — a replica loaded from a saved authority is in the authority's state.**  In
+    every world any history can reach, for any two existing instances for which `save`/`load` is in contract
+    (serialization enabled; manual activation, or both machines active): after `replica.load(authority.save())`
+    the replica's active state is exactly the authority's (both inactive included). -/
+theorem C12_history_roundtrip (cfg : Cfg) (hwf : cfg.WF) (beh : Beh) (ops : List Op) (i src k : Nat) (c sc : Core)
+    (hi : (run cfg beh ops).1.get i = some c) (hs : (run cfg beh ops).1.get src = some sc)
+    (hcond : (cfg.serialization && (cfg.manual || (c.active != 255 && sc.active != 255))) = true) :
+    actOf ((stepAll cfg beh (run cfg beh ops).1 k (.load i src)).1.get i) = sc.active := by
+  have hok := run_worldOk cfg hwf beh ops src sc hs
+  generalize (run cfg beh ops).1 = w at hi hs
+  have hstep : stepAll cfg beh w k (.load i src) =
+      onCore cfg w i k "load" c (load ⟨cfg, beh, i, k⟩ (save cfg sc)) := by
+    simp only [stepAll, step, Op.inst, Op.name, hi, hs]
+    rw [if_pos hcond]
+  rw [hstep, onCore_fst, World.get_put_same]
+  simp only [Bool.and_eq_true, Bool.or_eq_true] at hcond
+  show (load ⟨cfg, beh, i, k⟩ (save cfg sc) { core := c }).1.core.active = sc.active
+  rcases hok.active with ha | ha
+  · refine (C12_roundtrip_active ⟨cfg, beh, i, k⟩ hwf sc ha { core := c } ?_).1
+    rcases hcond.2 with hm | ⟨h1, _⟩
+    · exact Or.inr hm
+    · exact Or.inl (by simpa using h1)
+  · have hm : cfg.manual = true := by
+      rcases hcond.2 with hm | ⟨_, h2⟩
+      · exact hm
+      · simp [ha] at h2
+    rw [ha]
+    exact C12_roundtrip_inactive ⟨cfg, beh, i, k⟩ hwf hm sc ha { core := c }
+
 /-- non-vacuity: two instances interleaved, a copy, a vetoed request; instance 0's path is paired and the
     hypotheses of `C01_history` hold for it -/
 example :
